@@ -9,3 +9,4 @@ import MicroHttp.Props.Tables
 #print axioms MicroHttp.C06.pop_preserves_unsent
 #print axioms MicroHttp.C06.history_prefix_io
 #print axioms MicroHttp.Tables.pending_write_pred
+#print axioms MicroHttp.Tables.no_shared_state
